@@ -121,14 +121,14 @@ theorem fixV3 : FixV3 := by
 
 /-- The side conditions under which the function-level theorems hold, as one decidable check:
     the node is a function definition whose body is a block `{ … }` of statements of the supported
-    fragment; `namesOkA`, `castOkA` hold for every statement; the reading of the body has fresh
+    fragment; `namesOkA` holds for every statement; the reading of the body has fresh
     loop guards (`guardsFresh`, implied by `guardsPlain`); and every variable the reading mentions
     is among the variables `Variables` records for the function (this only excludes the reserved
     names `true` / `false` -- which `Variables` drops -- used as variables). -/
 def FuncOk (node : Node) : Bool :=
   match node with
   | .funcDef _ (.compound (some l)) =>
-    namesOkAL l && castOkAL l &&
+    namesOkAL l &&
       (match desugarL l, Syntax.variables node with
        | some cs, .ok vs => guardsFreshL cs && (varsL cs).all (fun v => vs.contains v)
        | _, _ => false)
@@ -136,18 +136,18 @@ def FuncOk (node : Node) : Bool :=
 
 theorem FuncOk.unpack {node : Node} (h : FuncOk node = true) :
     ∃ d l cs vs, node = .funcDef d (.compound (some l)) ∧ desugarL l = some cs ∧
-      Syntax.variables node = .ok vs ∧ namesOkAL l = true ∧ castOkAL l = true ∧
+      Syntax.variables node = .ok vs ∧ namesOkAL l = true ∧
       guardsFreshL cs = true ∧ (∀ v ∈ varsL cs, v ∈ vs) ∧ desugarFunc node = some (.seq cs) ∧
       funcBody node = l := by
   unfold FuncOk at h
   split at h
   · rename_i d l
     simp only [Bool.and_eq_true] at h
-    obtain ⟨⟨hn, hc⟩, h3⟩ := h
+    obtain ⟨hn, h3⟩ := h
     split at h3
     · rename_i cs vs hdl hvs
       simp only [Bool.and_eq_true, List.all_eq_true, List.contains_eq_mem, decide_eq_true_eq] at h3
-      refine ⟨d, l, cs, vs, rfl, hdl, hvs, hn, hc, h3.1, h3.2, ?_, rfl⟩
+      refine ⟨d, l, cs, vs, rfl, hdl, hvs, hn, h3.1, h3.2, ?_, rfl⟩
       simp only [desugarFunc, desugar, hdl, Option.map_some]
     · cases h3
   · cases h
@@ -156,7 +156,7 @@ theorem FuncOk.unpack {node : Node} (h : FuncOk node = true) :
 
 theorem cmds_core (stop : Bool) (vs : List String) (hnd : vs.Nodup) (hne : ∀ v ∈ vs, v ≠ "")
     (l : List Node) (cs : List Cmd) (hd : desugarL l = some cs) (hn : namesOkAL l = true)
-    (hc : castOkAL l = true) (hg : guardsFreshL cs = true)
+    (hg : guardsFreshL cs = true)
     (dI : Bool) (index : Nat) (rels : RelList) (sk : List String)
     (h : cmds (RelList.identity vs) 0 l stop = .ok (dI, index, rels, sk)) :
     ∃ r0, rels = [r0] ∧ r0.WF ∧ (∀ v ∈ vs, v ∈ r0.vars) ∧ (stop = false → dI = false) ∧
@@ -169,13 +169,13 @@ theorem cmds_core (stop : Bool) (vs : List String) (hnd : vs.Nodup) (hne : ∀ v
   rw [cmds_eq_go] at h
   have wid := Relation.identity_wf vs hnd hne
   obtain ⟨out, hcl, e1, e2, e3, r0, e5, w0, e7⟩ :=
-    go_computeList stop l cs hd hn hc hg (Relation.identity vs) 0 [] [] _ wid h
+    go_computeList stop l cs hd hn hg (Relation.identity vs) 0 [] [] _ wid h
   simp only at e1 e2 e3 e5
-  have R := computeList_refG l cs hd hn hc hg (fun n _ => nodeRefG n) (!stop) 0 [] (Relation.identity vs)
+  have R := computeList_refG l cs hd hn hg (fun n _ => nodeRefG n) (!stop) 0 [] (Relation.identity vs)
     [] out wid hcl
   have D := computeList_dbnd (!stop) 0 [] [Relation.identity vs] [] l out
     (RelLD_singleton (RelD_identity vs)) hcl
-  have G := computeList_ghostW fixV3 l cs hd hn hc hg (!stop) 0 [] (Relation.identity vs) [] out wid hcl
+  have G := computeList_ghostW fixV3 l cs hd hn hg (!stop) 0 [] (Relation.identity vs) [] out wid hcl
   refine ⟨r0, e5, w0, ?_, ?_, ?_, ?_⟩
   · intro v hv
     exact e7 v (by rw [Relation.identity_vars vs hne]; exact hv)
